@@ -119,8 +119,26 @@ Definition emit_ident_row start rest common extra (rows : list (str * N * bool))
   | Some row => Some (emit_ident start rest common (identd_of extra row) s)
   | None => None
   end.
+(* a qualified wildcard `t.*` (gen_projection.rs: translate_ident builds [.. qualifier parts, "*"], the star is popped and
+   sqlparser prints SelectItem::QualifiedWildcard as the qualifier path followed by .* ) *)
+Definition emit_qualified_star start rest common d (parts : list str) : str :=
+  emit_path start rest common d parts ++ [46; 42].
+(* reading side: the tokens must end in . * ; what stands in front is the path of the qualifier *)
+Definition split_qualified_star (l : list tok) : option (list tok) :=
+  match rev l with
+  | TPunct c2 :: TPunct c1 :: r => if (c2 =? 42) && (c1 =? 46) then Some (rev r) else None
+  | _ => None
+  end.
+Definition qualified_star_denotes (k : fold_kind) (q : N) (text : str) : option (list str) :=
+  match split_qualified_star (sql_lex std_sql text) with Some toks => path_of_tokens k q toks | None => None end.
+
 Definition emit_path_row start rest common extra (rows : list (str * N * bool)) (dialect : str) (parts : list str) : option str :=
   match find_dialect dialect rows with
   | Some row => Some (emit_path start rest common (identd_of extra row) parts)
+  | None => None
+  end.
+Definition emit_qualified_star_row start rest common extra (rows : list (str * N * bool)) (dialect : str) (parts : list str) : option str :=
+  match find_dialect dialect rows with
+  | Some row => Some (emit_qualified_star start rest common (identd_of extra row) parts)
   | None => None
   end.
